@@ -43,6 +43,14 @@ def frameOps (fx : Bool) (ws : List String) : Option String :=
         | .err _ => "err"
         | .crash s _ => "crash:" ++ s.label)
     | _, _, _, _, _ => some "bad-op"
+  | ["falloc", proto, flags, op, h] =>
+    -- allocation class of one parse: the model counts the `make`/`string` calls sized from the wire
+    match proto.toNat?, flags.toNat?, op.toNat?, bytes h with
+    | some proto, some flags, some op, some body =>
+      some (match FrameCrash.parseFrame fx (proto % 128) true flags op body with
+        | .crash s _ => "crash:" ++ s.label
+        | r => if r.allocated < 2097152 then "alloc:small" else if r.allocated ≥ 50331648 then "alloc:big" else "alloc:mid")
+    | _, _, _, _ => some "bad-op"
   | ["rows", proto, flags, h] =>
     match proto.toNat?, flags.toNat?, bytes h with
     | some proto, some flags, some body =>
